@@ -239,11 +239,11 @@ def run(ctx):
     work = []
     for tr in HARNESSES:
         p = dict(transport=tr, seed=ctx.seed)
-        d = depth + ((1 if quick else 4) if tr == "coap" else 0)
+        d = depth + ((1 if quick else 4) if tr == "coap" else (1 if tr == "ble" else 0))
         rs = explore.roots(lambda: make(p), 2)
         work += [(p, r, d) for r in rs]
     ctx.bounds.update(depth=depth, transports=list(HARNESSES))
     ctx.pmap(_work, work)
     ctx.exhaustive = not ctx.acc.capped
-    for s in ("req1", "req2", "req", "deliver", "replay-first", "future", "corrupt", "cancel", "timer", "ev", "ev-replay", "ev-corrupt"):
+    for s in ("req1", "req2", "req", "deliver", "replay-first", "replay", "step", "drop", "future", "corrupt", "cancel", "timer", "ev", "ev-replay", "ev-corrupt"):
         ctx.require(ctx.acc.symbols[s] > 0, f"symbol {s} never taken")
